@@ -379,12 +379,25 @@ def build_routes(d, rng, plain_only=False):
     t = Tag(name, *[b for k, b in built if k[0] != "M"], _add_ws=ws)
     for key, (m, v) in attrs:
         dict.__setitem__(t.attrs, key, trees.HTML(v) if m == "H" else v)
-    # now put the metadata nodes where they belong, one by one, left to right
+    # now put the metadata nodes where they belong, one by one, left to right; half of the tags are
+    # rendered (by a randomly chosen entry point, result discarded) BEFORE the first metadata node arrives
+    # and between arrivals: what a rendering leaves behind on the objects must not show later
+    warm = rng.random() < 0.5
+
+    def render_now():
+        if warm and rng.random() < 0.7:
+            f = rng.choice([lambda: t.get_html_string(), lambda: str(t), lambda: t.render(), lambda: t._repr_html_(),
+                            lambda: t.children.get_html_string(), lambda: t.get_html_string(2, "\r\n")])
+            safe_call(f)
+
     pos = 0
+    render_now()
     for k, b in built:
         if k[0] != "M":
             pos += 1
             continue
+        if pos:
+            render_now()
         route = rng.choice(["insert", "slice", "custom", "with", "append_if_last", "extend_if_last"])
         last = pos == len(t.children)
         if route == "custom":
